@@ -262,6 +262,19 @@ func (s symString) String() string {
 	return b.String()
 }
 
+// Pattern renders the string with every symbolic part as "*" (stable across SSA renumbering).
+func (s symString) Pattern() string {
+	var b strings.Builder
+	for _, p := range s.norm() {
+		if p.Sym == nil {
+			b.WriteString(p.Const)
+		} else {
+			b.WriteString("*")
+		}
+	}
+	return b.String()
+}
+
 func (s symString) norm() symString {
 	var out symString
 	for _, p := range s {
